@@ -87,7 +87,7 @@ const (
 	peerRTCPPort = 35001
 	// the raw publisher / player negotiate a NON-consecutive pair: "RTCP port = RTP port + 1" is a
 	// convention, not something a receiver may assume
-	rawRTCPPort = 35005
+	rawRTCPPort  = 35005
 	cliRTPPort   = 34000 // ports of the library client (UDPSourcePortRange pins them)
 	cliRTCPPort  = 34001
 	otherRTPPort = 36000 // second session's publisher
